@@ -681,7 +681,8 @@ impl<'a, 'p, 'ast> Lexer<'a, 'p, 'ast> {
         let mut i = self.end_pos;
         match byte0 {
             0..=0x7F => (i, Some(char::from(byte0))),
-            0b11000000..=0b11011111 => {
+            // 0xC0 and 0xC1 would only encode overlong forms of ASCII characters
+            0xC2..=0xDF => {
                 let byte1 = safe_get(self.input, i);
                 if byte1 & 192 != TAG_CONT_U8 {
                     return (i, None);
